@@ -115,7 +115,8 @@ def run_history(world, spec, hist, store_kind, oracles, sigtab=None, opts=None, 
                         probs.append(("C09", f"C09|raises|{real.exc}{'[' + real.code + ']' if real.code else ''}|{spec['key']}|{entry}",
                                       _what(spec, hist, si, f"dds raised {real.exc} {real.code} {str(real.excobj)[:120]!r}, plain execution returned {ref.value!r}")))
             # ---------------- C02: nothing recomputed unless its cone changed
-            if ("C02" in oracles or "C09" in oracles) and store_kind != "noop" and ref.status == "ok" and real.status == "ok":
+            if ("C02" in oracles or "C09" in oracles) and store_kind != "noop" and ref.status == "ok" and real.status == "ok" and not spec.get("conditional"):
+                # (a keep under a condition may be analysed without being reached: "its cone was evaluated" is not defined statically)
                 c2 = "C02" if "C02" in oracles else "C09"
                 cones = S.node_cones(spec, variant, entry, served=_served(prog, spec), pkg=prog.pkg)
                 kept_fns = set(cones)
@@ -134,6 +135,8 @@ def run_history(world, spec, hist, store_kind, oracles, sigtab=None, opts=None, 
                 prevv = sigtab.get(k)
                 if prevv is None:
                     sigtab[k] = (dict(real.sigs), (hist[:si + 1], store_kind))
+                elif spec.get("conditional") and all(prevv[0][p_] == v_ for p_, v_ in real.sigs.items() if p_ in prevv[0]):
+                    pass  # a keep that is not reached is not committed: which paths are written depends on the history, their signatures do not
                 elif prevv[0] != real.sigs and "C03" in oracles:
                     probs.append(("C03", f"C03|history_dependent|{spec['key']}",
                                   _what(spec, hist, si, f"signatures {_abbr(real.sigs)} differ from {_abbr(prevv[0])} obtained for the same program state via {prevv[1]}"),
